@@ -135,7 +135,25 @@ CLASS_CODES = {
 LIFETIME_TEXT = ("lifetime may not live long enough", "borrowed data escapes", "does not live long enough")
 
 
-def c12_corpus(tier, seed):
+def corpus_for(prop):
+    """the corpus programs tagged with `prop` (accept probes of that property's own domain)"""
+    def run(tier, seed):
+        return c12_corpus(tier, seed, prop=prop)
+    return run
+
+
+def both(f, g):
+    """two compiler-observed halves for one property"""
+    def run(tier, seed):
+        a = f(tier, seed)
+        b = g(tier, seed)
+        agg = dict(a[4])
+        agg.update(b[4])
+        return a[0] + b[0], a[1] + b[1], a[2] + b[2], a[3] + b[3], agg
+    return run
+
+
+def c12_corpus(tier, seed, prop="C12"):
     """rustc's verdict on every program of the accept/reject corpus, per target"""
     t0 = time.time()
     driver.ensure_links()
@@ -146,7 +164,7 @@ def c12_corpus(tier, seed):
         if not os.path.exists(src):
             src = os.path.join(driver.HARNESS, "Cargo.lock")
         shutil.copy(src, lock)
-    expect = json.load(open(os.path.join(CORPUS, "expect.json")))
+    expect = {k: e for k, e in json.load(open(os.path.join(CORPUS, "expect.json"))).items() if e.get("property", "C12") == prop}
     rc, msgs, stderr = cargo_json(["cargo", "check", "--offline", "--bins", "--keep-going", "--message-format=json"], CORPUS)
     errs = {}
     lib_broken = []
@@ -178,7 +196,7 @@ def c12_corpus(tier, seed):
         if e["expect"] == "accept":
             n_acc += 1
             if got:
-                violations.append({"prop": "C12", "sig": f"corpus|{fam}|AcceptedProgramRejected", "case": f"C12 corpus {name}",
+                violations.append({"prop": prop, "sig": f"corpus|{fam}|AcceptedProgramRejected", "case": f"{prop} corpus {name}",
                                    "detail": f"a correct program no longer compiles: {got[0][0]} {got[0][1][:300]}", "log": [],
                                    "variant": "rustc", "engine": "corpus", "args": []})
         else:
@@ -195,7 +213,11 @@ def c12_corpus(tier, seed):
         if len(samples) < 14 and (n_acc + n_rej) % 24 == 1:
             samples.append(f"{name}: expect {e['expect']} ({e['class']}), rustc errors: {[c for c, _ in got][:3]}")
     total = n_acc + n_rej
-    agg = {"corpus/rustc": {"cases": total, "nontrivial": n_rej, "violations": len(violations),
+    if prop != "C12" and violations and len(violations) == n_acc:
+        # every probe of this property's domain fails: the API moved, nothing can be said
+        inconclusive.append(f"none of the {n_acc} accept probes of {prop} compiles against this tree: " + violations[0]["detail"][:200])
+        violations = []
+    agg = {("corpus/rustc" if prop == "C12" else f"corpus/rustc({prop} accept probes)"): {"cases": total, "nontrivial": n_rej, "violations": len(violations),
                             "counters": {"corpus.accept_programs": n_acc, "corpus.reject_programs": n_rej, **{f"corpus.family.{k}": v for k, v in fam_count.items()}},
                             "ops": {}, "samples": samples, "shards": 1, "wall_s": round(time.time() - t0, 1), "notes": []}}
     build_log = [{"engines": ["corpus"], "variant": "cargo-check", "secs": round(time.time() - t0, 1), "rc": rc}]
